@@ -1,4 +1,5 @@
 pub mod osu;
+pub mod paths;
 
 use crate::util::Rng;
 
